@@ -94,6 +94,43 @@ pub use unit_stream::*;
 
 type BoxFuture<'a> = Pin<Box<dyn Future<Output = ()> + 'a>>;
 
+/// Access points for out-of-tree verification harnesses.
+///
+/// Only compiled with `--cfg bytecodealliance_wit_bindgen_verif`; re-exports
+/// and thin wrappers only, no behavior of its own.
+#[cfg(bytecodealliance_wit_bindgen_verif)]
+#[doc(hidden)]
+pub mod verif_hooks {
+    pub use super::cabi::{wasip3_task, wasip3_task_v2, wasip3_task_vtable};
+    pub use super::waitable::{WaitableOp, WaitableOperation};
+    use super::{AbiBuffer, ReturnCode, StreamOps};
+
+    /// `ReturnCode::decode` as `(tag, amount)`; `Blocked` is `(u32::MAX, 0)`.
+    pub fn return_code_decode(val: u32) -> (u32, u32) {
+        match ReturnCode::decode(val) {
+            ReturnCode::Blocked => (super::BLOCKED, 0),
+            ReturnCode::Completed(n) => (super::COMPLETED, n),
+            ReturnCode::Dropped(n) => (super::DROPPED, n),
+            ReturnCode::Cancelled(n) => (super::CANCELLED, n),
+        }
+    }
+
+    /// `AbiBuffer::new`
+    pub fn abi_buffer_new<O: StreamOps>(vec: alloc::vec::Vec<O::Payload>, ops: O) -> AbiBuffer<O> {
+        AbiBuffer::new(vec, ops)
+    }
+
+    /// `AbiBuffer::abi_ptr_and_len`
+    pub fn abi_buffer_ptr_and_len<O: StreamOps>(buf: &AbiBuffer<O>) -> (*const u8, usize) {
+        buf.abi_ptr_and_len()
+    }
+
+    /// `AbiBuffer::advance`
+    pub fn abi_buffer_advance<O: StreamOps>(buf: &mut AbiBuffer<O>, amt: usize) {
+        buf.advance(amt)
+    }
+}
+
 #[cfg(feature = "async-spawn")]
 mod spawn;
 #[cfg(feature = "async-spawn")]
